@@ -10,7 +10,8 @@
 //!       per packet, lone set_mss after delivered payload, recovery entry / exit, timeouts).
 //!
 //! A line:  {"op":..., <arguments>, "d": slot, "w":window(), "s":sshthresh(), "u":uncapped window,
-//!           "smss":smss(), "nan":bool, "panic":bool}
+//!           "smss":smss(), "nan":bool, "panic":bool, "rtt":[s,ns]}  (+ "case": k in replay mode on the
+//!           line of the last call of case number k, so that the caller can find the answer to a case)
 //!   d   the call is executed on the state stored in slot d%16 and its result is stored in slot
 //!       (d+1)%16 (`new` ignores d and stores into slot 0).  In a depth-first walk d is the depth,
 //!       in a recorded run it is the running number of the call.
@@ -152,13 +153,14 @@ fn line(call: &Value, d: usize, st: &St, o: &Obs) -> Value {
 struct Node {
     call: Value,
     children: Vec<usize>,
+    case: Option<usize>, // the case that ends here
 }
 
 /// A case line is either a JSON array of calls (first call `new`), or
 /// {"p": k, "c": [calls]}: the calls of case number k (0-based line number among the cases of the
 /// file, must precede) followed by these calls.
 fn replay(cases: &str, answers: &str) {
-    let mut nodes = vec![Node { call: Value::Null, children: vec![] }];
+    let mut nodes = vec![Node { call: Value::Null, children: vec![], case: None }];
     let mut index: HashMap<(usize, String), usize> = HashMap::new();
     let mut end_of_case: Vec<usize> = vec![];
     let f = std::io::BufReader::new(std::fs::File::open(cases).expect("open cases"));
@@ -184,13 +186,14 @@ fn replay(cases: &str, answers: &str) {
                 Some(&i) => i,
                 None => {
                     let i = nodes.len();
-                    nodes.push(Node { call: c, children: vec![] });
+                    nodes.push(Node { call: c, children: vec![], case: None });
                     nodes[at].children.push(i);
                     index.insert(key, i);
                     i
                 }
             };
         }
+        nodes[at].case.get_or_insert(end_of_case.len());
         end_of_case.push(at);
     }
     let ncases = end_of_case.len();
@@ -203,7 +206,11 @@ fn replay(cases: &str, answers: &str) {
         let o = exec(&mut st, base, &nodes[i].call);
         // `new` is at depth 0 and fills slot 0; a call at depth k >= 1 reads slot k-1 and fills slot k
         let d = depth.saturating_sub(1);
-        out.line(line(&nodes[i].call, d, &st, &o));
+        let mut v = line(&nodes[i].call, d, &st, &o);
+        if let Some(k) = nodes[i].case {
+            v["case"] = json!(k);
+        }
+        out.line(v);
         if !st.dead {
             for &ch in nodes[i].children.iter().rev() {
                 stack.push((ch, depth + 1, st));
